@@ -4,6 +4,7 @@ package tb
 
 import (
 	"fmt"
+	"os"
 	"sort"
 	"strings"
 	"testing/synctest"
@@ -30,8 +31,12 @@ type sched struct {
 	choose     bool
 	gates      *gateSet // SQL / mutex gates of store/sqlite.go (C20), nil otherwise
 	lastThread int64
-	trace      *[]string
+	// fifo: canonical order is strictly oldest first (the thread that ran last is not preferred)
+	fifo  bool
+	trace *[]string
 }
+
+var traceEnv = os.Getenv("VERIF_TRACE") != ""
 
 type pend struct {
 	bus    int
@@ -75,9 +80,11 @@ func (s *sched) pending() []pend {
 		return dl[a].bus < dl[b].bus
 	})
 	out = append(out, dl...)
-	sort.SliceStable(out, func(a, b int) bool {
-		return out[a].thread == s.lastThread && out[b].thread != s.lastThread
-	})
+	if !s.fifo {
+		sort.SliceStable(out, func(a, b int) bool {
+			return out[a].thread == s.lastThread && out[b].thread != s.lastThread
+		})
+	}
 	out = append(out, late...)
 	if len(out) > s.maxPend {
 		s.maxPend = len(out)
@@ -103,6 +110,9 @@ func (s *sched) step(extra int, label string) (granted bool, extraChoice int) {
 	}
 	if s.trace != nil {
 		*s.trace = append(*s.trace, p[c].String())
+	}
+	if traceEnv {
+		fmt.Printf("  [%s] grant %s   (of %d)\n", time.Now().Format("05.000"), p[c].String(), len(p))
 	}
 	s.lastThread = p[c].thread
 	if p[c].gate != nil {
